@@ -19,6 +19,7 @@ void vshim_set_freeze(int64_t at, int torn);
 void vshim_add_fault(int64_t at, int kind);
 /* kill the process (SIGKILL) when mutating-op ordinal `at` is reached (child-process crash tests) */
 void vshim_set_kill(int64_t at);
+void vshim_clear_faults(void);     /* forget faults that have not fired */
 int64_t vshim_ordinal(void);       /* mutating ops seen so far */
 int64_t vshim_lock_ordinal(void);  /* lock calls seen so far */
 int     vshim_frozen(void);
